@@ -49,6 +49,20 @@ TABLE = {
     "bnd": "f2 e9 00 00 00 00",
     "mpx": "0f 1a 04 18",
     "vsib": "c4 e2 f9 92 04 08",
+    "d16-hint": "66 2e 70 05",
+    "hint-d16": "2e 66 70 05",
+    "d16-hint-pt": "66 3e 7e 10",
+    "evex-mask-store": "62 f1 7c 49 11 0c 98",
+    "evex-bcast": "62 f1 7c 58 58 04 98",
+    "evex-mask-disp": "62 f1 7c 49 11 4c 98 01",
+    "evex-zmask": "62 f1 7c c9 10 0c 98",
+    "movabs-mem": "48 a1 88 77 66 55 44 33 22 11",
+    "mov-imm-disp32": "48 c7 84 98 00 01 00 00 78 56 34 12",
+    "addr32-sib": "67 42 8b 04 a8",
+    "r12d-index": "67 43 8b 44 a0 10",
+    "seg-sib": "64 48 8b 04 f0",
+    "call-far": "9a 78 56 34 12 34 12",
+    "ljmp-mem": "ff 2c 25 00 10 00 00",
 }
 TABLE = {k: bytes.fromhex(v) for k, v in TABLE.items()}
 
